@@ -13,6 +13,6 @@ MCCfgs == { Base,                                               \* healthy, one 
             Base \cup {E("a", "min", "int", 160), E("a", "max", "int", 40)} }     \* inverted
 ModNames == {"m1", "m2", "m3"}
 MCInit == \E ms \in {s \in SUBSET ModNames : Cardinality(s) = NMods} :
-            \E c \in [ms -> MCCfgs], k \in [ms -> {"polled", "unpolled", "onio"}] : NInit(c, k)
+            \E c \in [ms -> MCCfgs], k \in [ms -> {"polled", "unpolled", "onio", "noclass"}] : NInit(c, k)
 MCSpec == MCInit /\ [][NNext]_nvars
 =============================================================================
